@@ -37,6 +37,19 @@ PROPS = {
                    "historical scans drop empty-valued keys (known finding F3b)",
         "assumptions": ["goleveldb snapshot isolation and memdb thread-safety", "sequential executions only"],
     },
+    "C08": {
+        "module": "ZenonVerif.Props.C08",
+        "streams": [S("crash", 25, 1500, timeout=7200)],
+        "rule": "crash stream: one evaluation = one commit/rollback of a generated history on a real NewLevelDBManager whose "
+                "journal is parsed before/after (write count + batch content replayed against the Lean write plan), plus one "
+                "crash image per cut point (journal truncated after write k, reopened with goleveldb and NewLevelDBManager: raw "
+                "key space must equal the state before or after; frontier pointer / keys / undo-redo records must agree; the "
+                "same and a competing transaction are re-delivered and compared with crash-free runs); distinct = distinct lines",
+        "partial": "process death is reproduced at the granularity of leveldb writes (one journal record per Put/Delete/Write); "
+                   "durability below leveldb (fsync, power loss, torn journal records) is leveldb's own recovery and is trusted; "
+                   "the node-level commit (chain.AddMomentumTransaction) adds no further leveldb write to the ledger database",
+        "assumptions": ["goleveldb: one journal record per write call, handed to the OS before the call returns; a batch is atomic w.r.t. process death"],
+    },
     "C06": {
         "module": "ZenonVerif.Props.C06",
         "streams": [S("vdb", 400, 20000, arg="mix=pop")],
